@@ -567,6 +567,9 @@ def gen_obj(rng, opts, depth=0, budget=None, cls=None, nattrs=None):
         used = set()
         names = [gen_name(rng, used) for _ in range(nattrs)]
     attrs = [[n, gen_value(rng, opts, depth, budget)] for n in names]
+    if "float" in opts["kinds"] and attrs and rng.chance(0.05):
+        # a python complex directly as an attribute (dill fallback path)
+        attrs[rng.randrange(len(attrs))][1] = {"k": "complex", "v": [gen_float(rng), gen_float(rng)]}
     return {"k": "obj", "cls": cls, "attrs": attrs}
 
 
